@@ -119,7 +119,12 @@ def gen_history(rng):
             c['abort'] = ['hook', rng.randrange(0, 40)]
         elif r < 0.5:
             c['abort'] = ['reject', rng.randrange(0, 30)]
+        elif r < 0.6:
+            c['abort'] = ['after', rng.randrange(0, 12)]
         hist.append(c)
+    if hist and rng.random() < 0.2:
+        # the very first session of the process dies right after its first MARKET order was submitted (still queued)
+        hist[0]['abort'] = ['after', 0]
     return hist, probe
 
 
@@ -215,7 +220,8 @@ class C11(core.Check):
                 if not purecorr.tokens_agree(' '.join(mt[:6]), real, rel=1e-9):
                     bad = (i, 'params', ' '.join(mt[:6]), real)
                     break
-                if o['observed'].get('submitted') and not placed and mt[6] == '1':
+                # (a call that dies right after a submission never sees its order executed: nothing to conclude there)
+                if o['observed'].get('submitted') and not placed and mt[6] == '1' and not (c.get('abort') and c['abort'][0] == 'after'):
                     bad = (i, 'driver', 'orders reach a driver', 'submitted orders were not placed')
                     break
             if bad:
